@@ -89,9 +89,23 @@ func genProtectedTx(rng *rand.Rand, g *GenesisSpec) Op {
 
 func genProtectedOps(rng *rand.Rand, g *GenesisSpec, nBlocks int) []Op {
 	ops := []Op{{K: "block", Dt: 5}}
+	pcTraffic := g.StakingCpc && g.Erc20Native && rng.IntN(2) == 0
+	if pcTraffic {
+		// precompile traffic: every wallet delegates to two validators (equal stakes: ties in every ordering rule)
+		for i := 0; i < g.Wallets; i++ {
+			for v := 0; v < g.Validators && v < 3; v++ {
+				ops = append(ops, Op{K: "pc", W: i, To: "staking", Mut: "delegate", A: []string{fmt.Sprintf("val%d", v), "100000"}})
+			}
+		}
+		ops = append(ops, Op{K: "block", Dt: 5})
+	}
 	for b := 0; b < nBlocks; b++ {
 		n := rng.IntN(7)
 		for i := 0; i < n; i++ {
+			if pcTraffic && rng.IntN(3) == 0 {
+				ops = append(ops, genPcCall(rng, g, pick(rng, "", "", "c", "d")))
+				continue
+			}
 			ops = append(ops, genProtectedTx(rng, g))
 		}
 		ops = append(ops, Op{K: "block", Dt: pick(rng, 1, 5, 5, 30), Prop: rng.IntN(4), Byz: rng.IntN(5) == 0})
